@@ -325,7 +325,7 @@ Proof.
   destruct ((ty =? tLONG) && (64 <=? bits)%Z); [discriminate|]. reflexivity.
 Qed.
 
-(* a present member (behind any unknown fields) whose wire type the reader of its IDL type does not admit *)
+(* a present member (behind any unknown fields) whose wire type the reader of its IDL type does not accept *)
 Theorem inadmissible_member e f tag req t prior lo J ty r :
   junk_ok lo tag J -> ty < 16 -> tag < 256 -> (ty =? tSE) = false -> adm t ty = false ->
   (2 * length (ser_fields J ++ head ty tag ++ r) + 3 <= f)%nat ->
